@@ -50,6 +50,7 @@ fn main() {
                 no_yield: m.contains_key("no-yield"),
                 log_every: get(&m, "log-every", 0u64),
                 tag: get(&m, "tag", "w".to_string()),
+                hash_every: get(&m, "hash-every", 16u64),
             };
             work_main(&a);
         }
@@ -66,6 +67,7 @@ fn main() {
                 determinism_sample: get(&m, "determinism-sample", 0u64),
                 tag: get(&m, "tag", "h".to_string()),
                 no_yield: m.contains_key("no-yield"),
+                hash_every: get(&m, "hash-every", 16u64),
             };
             let out = batch_main(&b);
             println!(
